@@ -49,7 +49,7 @@ Inductive Run : lines -> bool -> pstate -> res pstate -> Prop :=
 | R_macro ln r sk st st' res : line_step ln sk st = Ok (st', EndMacro) ->
     Run (snd (skip_macro r [])) false
         {| segs := segs st'; macro_name := macro_name st'; macros := insert (macro_name st') (fst (skip_macro r [])) (macros st');
-           msgs := msgs st'; pcx := pcx st' |} res ->
+           msgs := msgs st'; pcx := pcx st'; fl := fl st' |} res ->
     Run (ln :: r) sk st res.
 
 Lemma skip_cond_len all : forall ls d, (length (fst (skip_cond all d ls)) <= length ls)%nat.
@@ -83,7 +83,7 @@ Definition continue (g : nat) (r : lines) (x : pstate * next_item) : res pstate 
       let '(body, r') := skip_macro r [] in
       parse_iter fuel inc g r' false
         {| segs := segs st2; macro_name := macro_name st2; macros := insert (macro_name st2) body (macros st2);
-           msgs := msgs st2; pcx := pcx st2 |}
+           msgs := msgs st2; pcx := pcx st2; fl := fl st2 |}
   end.
 Lemma parse_iter_step g ln r sk st :
   parse_iter fuel inc (S g) (ln :: r) sk st = bind (line_step ln sk st) (continue g r).
